@@ -4,7 +4,7 @@
    every selected peer and to no other node) quantifies over networks of nodes; it is decided by the
    executed correspondence on 2-5 node meshes with a conservation oracle (py/props/c10.py).  The
    per-node theorems below are the facts that oracle rests on. *)
-From VpnModel Require Import Base Nonce Replay Core CoreProofs Conn PeerCrypto SealProofs Table Node NodeProofs TrustProofs EndToEndProofs.
+From VpnModel Require Import Base Nonce Replay Core CoreProofs Conn PeerCrypto SealProofs Table Node NodeProofs TrustProofs EndToEndProofs NextHopProofs TickPeersProofs FloodProofs.
 
 (* END TO END (two nodes): a frame read from the interface of node A whose destination resolves to peer B causes exactly one datagram, to B, and that datagram makes B write exactly that frame to its interface and nothing else, whenever the two connection objects are in sync (B holds A's sealing key under its id, nonce reconstructible, window admits: the C07/C04/C03 invariants) *)
 Theorem C10_unicast_end_to_end : forall salts now now' nA nB frame s d s' d' addrA addrB pdA pdB cA cB tA',
@@ -59,6 +59,22 @@ Theorem C10_byte_identical : forall ok p1 p2 c1 c2 ty body p1' w, pc_plain p1 = 
   snd (fst (pc_handle ok p2 w)) = Ok (MMessage ty body).
 Proof. exact pc_roundtrip. Qed.
 
+(* a flood (broadcast) emits, for the peers in map order, exactly the datagram each peer's connection object seals - nothing else, nobody twice, nobody skipped (peer map without duplicate addresses) *)
+Theorem C10_flood_exact : forall n ty body, NoDup (keys (n_peers n)) ->
+  snd (broadcast n ty body) = flat_map (seal_fx ty body) (n_peers n).
+Proof. exact broadcast_exact. Qed.
+
+(* in EVERY reachable node state (any events, any times, any salts) a frame whose destination the table does not know is, in a flooding mode, sent to every peer exactly once: the peer map never lists an address twice (TickPeersProofs.reachable_nd) and every peer's connection object can seal (FloodProofs.reachable_se) *)
+Theorem C10_reachable_flood_every_peer_once : forall salts c t0 evs now frame s d t',
+  let n := nrun salts (node_new c t0) evs in
+  parse_frame (n_cfg n) frame = Ok (s, d) -> table_lookup (n_table n) now d = (None, t') -> c_broadcast (n_cfg n) = true ->
+  map dst_of (snd (handle_iface salts now n frame)) = map (fun e => Some (fst e)) (n_peers n).
+Proof. exact reachable_flood_every_peer_once. Qed.
+
+(* non-vacuity: the reachable example state of NextHopProofs floods to its one peer *)
+Example C10_ex_flood : map dst_of (snd (broadcast ex_b MESSAGE_TYPE_DATA [1;2;3])) = [Some 1001].
+Proof. exact ex_flood. Qed.
+
 Print Assumptions C10_unicast_end_to_end.
 Print Assumptions C10_iface_only_sends.
 Print Assumptions C10_send_to_peers_only.
@@ -66,3 +82,5 @@ Print Assumptions C10_no_relay.
 Print Assumptions C10_unknown_dest_router.
 Print Assumptions C10_non_peer_nothing.
 Print Assumptions C10_byte_identical.
+Print Assumptions C10_flood_exact.
+Print Assumptions C10_reachable_flood_every_peer_once.
